@@ -34,7 +34,7 @@ def cases(draw):
             setup = dict(setup, slperm=True)   # sitelist passed in the caller's own order (reversed), not Crystal.sitelist order
         crys, sl, jn, calc = vs.calculator(setup)
         pool = [draw(vs.datasets(calc)) for _ in range(2)]
-        hist = draw(st.lists(st.sampled_from(["eval0", "eval1", "reload", "reload", "clear"]), min_size=2, max_size=6))
+        hist = draw(st.lists(st.sampled_from(["eval0", "eval1", "reload", "reload", "clear", "rematrix"]), min_size=2, max_size=6))
         return {"family": fam, "setup": setup, "pool": pool, "history": hist}
     if fam == "gf":
         c = draw(c10.cases())
@@ -90,6 +90,12 @@ def check_vm(case):
                 for nm, a, b in zip(("L0vv", "Lss", "Lsv", "L1vv"), A, B):
                     e = np.abs(np.asarray(a) - np.asarray(b)).max() / sc
                     require(e <= 1e-14, lambda: "reloaded calculator returns a different %s (relative %.3e) after history %s" % (nm, e, trace))
+        elif step == "rematrix":
+            # generatematrices() is a public, argument-free method that rebuilds the rate-expansion matrices from the stored
+            # stars and jump networks: a further call that must behave the same on the copy
+            orig.generatematrices()
+            if copy is not None:
+                copy.generatematrices()
         elif step == "clear":
             orig.clearcache()
             cache_populated = False
@@ -102,6 +108,13 @@ def check_vm(case):
             copy = OnsagerCalc.VacancyMediated.loadhdf5(f["d"])
             f.close()
             require(copy.tags == orig.tags, "tags differ after reload")
+            require([sorted(w) for w in copy.sitelist] == [sorted(w) for w in orig.sitelist], lambda: "sitelist (order of Wyckoff sets, members as sets) differs after reload: %s vs %s" % (copy.sitelist, orig.sitelist))
+            for nm in ("om0_jn", "om1_jn", "om2_jn"):
+                A_, B_ = getattr(orig, nm), getattr(copy, nm)
+                require(len(A_) == len(B_) and all(len(x) == len(y) for x, y in zip(A_, B_)), lambda: "%s has a different shape after reload" % nm)
+                for x, y in zip(A_, B_):
+                    for ((i1, j1), dx1), ((i2, j2), dx2) in zip(x, y):
+                        require((i1, j1) == (i2, j2) and np.allclose(dx1, dx2, atol=1e-12), lambda: "%s differs after reload: %s vs %s" % (nm, ((i1, j1), dx1), ((i2, j2), dx2)))
             require(copy.tagdict == orig.tagdict and copy.tagdicttype == orig.tagdicttype, "tag dictionaries differ after reload")
             require(set(copy.GFvalues.keys()) == set(src.GFvalues.keys()), "cached Green-function keys differ after reload")
             if cache_populated:
